@@ -134,10 +134,30 @@ def gen_static():
         # would answer the neutral element here)
         arr2 = '[%s]' % ', '.join(names[:2])
         want2 = '((%s %s a) %s b)' % (zero, op, op)
-        L.append('    { let r3: %s = %s.iter().filter(|_| true).%s(); let r4: %s = %s.into_iter().filter(|_| true).%s(); vassert_eq("%s of 2 refs, filtered", r3, %s); vassert_eq("%s of 2 values, filtered", r4, %s); }' % (ty, arr2, method, ty, arr2, method, method, want2, method, want2))
         add(name, ', '.join('%s: %s' % (x, ty) for x in names[:n]), L)
+        # (a harness of its own: adaptors lower to calls into std's generic iterator code, which the executor may not be
+        # able to follow after a rewrite of the fold; the plain clauses above then still get their verdict)
+        L = ['    { let r3: %s = %s.iter().filter(|_| true).%s(); let r4: %s = %s.into_iter().filter(|_| true).%s(); vassert_eq("%s of 2 refs, filtered", r3, %s); vassert_eq("%s of 2 values, filtered", r4, %s); }' % (ty, arr2, method, ty, arr2, method, method, want2, method, want2)]
+        add(name + '_filtered', ', '.join('%s: %s' % (x, ty) for x in names[:2]), L)
+    def folds_long(name, ty, zero, op, method, lo, hi):
+        # longer iterators (BOUND: lo..hi items): an unrolled or pairwise rewrite of the fold agrees with the left fold on
+        # short inputs and re-associates only from its block size on
+        names = list('abcdefghi')[:hi]
+        L = []
+        for k in range(lo, hi + 1):
+            arr = '[%s]' % ', '.join(names[:k])
+            want = zero
+            for x in names[:k]:
+                want = '(%s %s %s)' % (want, op, x)
+            L.append('    { let r1: %s = %s.iter().%s(); let r2: %s = %s.into_iter().%s(); vassert_eq("%s of %d refs", r1, %s); vassert_eq("%s of %d values", r2, %s); }' % (ty, arr, method, ty, arr, method, method, k, want, method, k, want))
+        add(name, ', '.join('%s: %s' % (x, ty) for x in names), L)
     for v in VEC:
         folds('c17_sum_%s' % v.lower(), '%s<R>' % v, '%s::<R>::zero()' % v, '+', 'sum')
+        folds_long('c17_sum_%s_long' % v.lower(), '%s<R>' % v, '%s::<R>::zero()' % v, '+', 'sum', 5, 9)
+    folds_long('c17_sum_quat_long', 'Quaternion<R>', 'Quaternion::<R>::zero()', '+', 'sum', 5, 9)
+    folds_long('c17_product_quat_long', 'Quaternion<R>', 'Quaternion::<R>::one()', '*', 'product', 4, 6)
+    folds_long('c17_sum_rad_long', 'Rad<R>', 'Rad::<R>::zero()', '+', 'sum', 5, 9)
+    folds_long('c17_sum_matrix2_long', 'Matrix2<R>', 'Matrix2::<R>::zero()', '+', 'sum', 4, 9)
     for m in MAT:
         folds('c17_sum_%s' % m.lower(), '%s<R>' % m, '%s::<R>::zero()' % m, '+', 'sum', 3)
         # (fewer factors for the larger matrices: a data-dependent branch per factor would multiply paths)
